@@ -170,7 +170,7 @@ func (r *Receiver) SegmentHandlerFunc(w http.ResponseWriter, req *http.Request) 
 			if moof == nil || moof.Mfhd == nil || moof.Traf == nil || moof.Traf.Tfhd == nil || moof.Traf.Tfdt == nil || moof.Traf.Trun == nil {
 				return fmt.Errorf("incomplete moof box in chunk")
 			}
-			trd, ok := ch.trDatas[trName]
+			trd, ok := ch.getTrData(trName)
 			if !ok {
 				return fmt.Errorf("failed to find track data trName: %s", trName)
 			}
@@ -321,12 +321,7 @@ func (r *Receiver) SegmentHandlerFunc(w http.ResponseWriter, req *http.Request) 
 	// Receive raw segments
 	nrRead := 0
 	nrWritten := 0
-	trD, ok := ch.trDatas[stream.trName]
-	if !ok {
-		log.Debug("New raw track data")
-		trD = &trData{name: stream.trName}
-		ch.trDatas[stream.trName] = trD
-	}
+	trD := ch.getOrAddRawTrData(stream.trName)
 
 	if trD.nrSegsReceived >= ch.receiveNrRaws && (contentLength == 0 || contentLength >= 4096) {
 		log.Debug("Max number of raw segments received. Will not store.", "nrSegsReceived",
